@@ -32,49 +32,148 @@ def _inline_mx(src):
     return src.replace('#include "c05_mx.hpp"', "// ---- drivers/c05_mx.hpp (inlined) ----\n" + mx + "\n// ---- end ----\n")
 
 
+SKINDS = ["vec", "arr", "sv", "cst"]        # index level: kind of the source shape
+AKINDS = ["dyn", "fs", "raw", "fixed"]      # view level: kind of the source array
+INT_KINDS = ["rt", "rtu", "ct", "sct", "last"]
+
+
+def _field_from_pat(ch):
+    return ("N",) if ch == "N" else ("O",) if ch == "O" else ("rt",)
+
+
+def _range_from_pat(p): return ("r", tuple(_field_from_pat(ch) for ch in p))
+
+
 def static_combos(tier):
-    """type combinations for the typed-tuple encodings: list of (dim, [part types]); part type 'i', 'e' or a pattern.
-    A systematic prefix (every pattern next to an ellipsis in every position and next to an integer) + a seeded sample."""
+    """type combinations for the typed-tuple encodings.  A combination fixes, for every part, its C++ TYPE:
+         ("e",)                         Ellipsis
+         ("i", kind, value)             integer index: rt run-time int, rtu run-time size_t, ct k_ct (integral_constant<size_t,k>),
+                                        sct meta::ct_v<k> (integral_constant<int,k>, k may be negative), last nm::Last
+         ("r", (fa, fb, fc))            range; each field ("N",) None | ("O",) omitted (step only) | ("rt",) run-time int |
+                                        ("ct", k) | ("sct", k) | ("last",)
+       plus the kind of the source shape at index level (skind), the kind of the source array at view level (akind), the
+       minimal extent of each axis (constants used as integer indices must be in range) and, for the constant-shape kinds
+       (cst / raw / fixed), the shape itself.  Systematic prefix + seeded sample (fixed seed: the TUs are stable)."""
     rng = random.Random(5005)
-    out = []
-    def add(dim, parts):
-        t = (dim, tuple(parts))
-        if t not in out: out.append(t)
+    out = []; seen = set()
+    def mk_int(kind):
+        if kind in ("rt", "rtu"): return ("i", kind, None)
+        if kind == "ct": return ("i", kind, rng.choice([0, 1, 2]))
+        if kind == "sct": return ("i", kind, rng.choice([-2, -1, 0, 1]))
+        return ("i", "last", -1)
+    def mk_field(step=False):
+        k = rng.choice(["N", "N", "rt", "rt", "rt", "ct", "sct", "last"])
+        if k in ("N", "rt"): return (k,)
+        if k == "ct": return ("ct", rng.choice([1, 2, 3] if step else [0, 1, 2, 3, 7]))
+        if k == "sct": return ("sct", rng.choice([-2, -1, 1, 2] if step else [-7, -3, -2, -1, 0, 1, 2]))
+        return ("last",)
+    def mk_range():
+        c = ("O",) if rng.random() < 0.3 else mk_field(step=True)
+        return ("r", (mk_field(), mk_field(), c))
+    def add(dim, parts, sk=None, ak=None):
+        parts = tuple(parts)
+        k = len(out)
+        sk = sk or SKINDS[k % 4]; ak = ak or AKINDS[(k // 4 + k) % 4]
+        key = (dim, parts, sk, ak)
+        if key in seen: return
+        seen.add(key)
+        nf = dim - sum(1 for x in parts if x[0] != "e")
+        minext = []
+        for x in parts:
+            if x[0] == "e": minext += [1] * nf
+            elif x[0] == "i" and x[2] is not None: minext.append(x[2] + 1 if x[2] >= 0 else -x[2])
+            else: minext.append(1)
+        fixed_shape = tuple(rng.randint(m, max(m, 4)) for m in minext)
+        out.append(dict(dim=dim, parts=parts, skind=sk, akind=ak, minext=minext, shape=fixed_shape))
+    R = _range_from_pat
+    # the twelve run-time None/int patterns next to an ellipsis in every position and next to an integer
     for k, p in enumerate(PATS):
-        add(1, [p])
-        add(2, ["e", p]); add(2, [p, "e"])
-        add(2, [p, "i"] if k % 2 else ["i", p])
-        add(3, [p, "e", PATS[(k + 5) % 12]])          # ellipsis in the middle, standing for one axis
-        add(2, [p, "e", PATS[(k + 7) % 12]])          # ellipsis standing for zero axes
-    add(3, ["e", "i"]); add(3, ["i", "e"]); add(3, ["i", "e", "i"]); add(3, ["e"]); add(2, ["e"]); add(1, ["e"])
+        add(1, [R(p)])
+        add(2, [("e",), R(p)]); add(2, [R(p), ("e",)])
+        add(2, [R(p), mk_int("rt")] if k % 2 else [mk_int("rt"), R(p)])
+        add(3, [R(p), ("e",), R(PATS[(k + 5) % 12])])          # ellipsis in the middle, standing for one axis
+        add(2, [R(p), ("e",), R(PATS[(k + 7) % 12])])          # ellipsis standing for zero axes
+    # every kind of integer index x every kind of source shape / array, before and after a range, and next to an ellipsis
+    for a, ik in enumerate(INT_KINDS):
+        for b in range(4):
+            sk = SKINDS[b]; ak = AKINDS[(a + b) % 4]
+            add(2, [mk_int(ik), mk_range()] if (a + b) % 2 == 0 else [mk_range(), mk_int(ik)], sk, ak)
+            add(3, [("e",), mk_int(ik)] if b % 2 == 0 else [mk_int(ik), ("e",), mk_range()], sk, AKINDS[(a + b + 1) % 4])
+    # ranges whose fields mix run-time values, constants, None and Last x every kind of source shape / array
+    for b in range(4):
+        for _ in range(3):
+            add(rng.choice([1, 2]), None or [mk_range() for _ in range(rng.choice([1, 2]))][:2], SKINDS[b], AKINDS[(b + _) % 4])
+    out2 = []
+    for cmb in out:                                              # keep len(parts) consistent with dim
+        if sum(1 for x in cmb["parts"] if x[0] != "e") <= cmb["dim"] and (any(x[0] == "e" for x in cmb["parts"]) or len(cmb["parts"]) == cmb["dim"]):
+            out2.append(cmb)
+    out = out2
+    add(3, [("e",)]); add(2, [("e",)]); add(1, [("e",)])
     target = 120 if tier == "quick" else 400
     while len(out) < target:
         dim = rng.choice([1, 2, 2, 3, 3, 3])
         has_e = rng.random() < 0.5
         nf = rng.randint(0, dim) if has_e else 0
-        parts = [("i" if rng.random() < 0.3 else rng.choice(PATS)) for _ in range(dim - nf)]
-        if has_e: parts.insert(rng.randint(0, len(parts)), "e")
-        if nf + sum(1 for x in parts if x not in ("i", "e")) == 0: continue      # rank-0 result: not generated
+        parts = [(mk_int(rng.choice(INT_KINDS)) if rng.random() < 0.3 else mk_range()) for _ in range(dim - nf)]
+        if has_e: parts.insert(rng.randint(0, len(parts)), ("e",))
+        if nf + sum(1 for x in parts if x[0] == "r") == 0: continue      # rank-0 result: not generated
         add(dim, parts)
     return out
 
 
-def _cxx_t(ch): return "int" if ch == "i" else "nm::none_t"
+def _ct_expr(kind, v):
+    if kind == "ct": return "meta::integral_constant<size_t,%d>{}" % v      # the type of the `k_ct` literals
+    if kind == "sct": return "meta::ct_v<%d>" % v
+    return "nm::Last"
 
 
-def _combo_fn(cid, dim, parts):
-    lines = ["static std::string combo_%s(const Case& c) {" % cid]
+def _field_expr(f, arg, k):
+    if f[0] == "N": return "nm::None"
+    if f[0] == "rt": return "fld(%s, %d)" % (arg, k)
+    return _ct_expr(f[0], f[1] if len(f) > 1 else -1)
+
+
+def describe(cmb):
+    def pf(f): return f[0] if len(f) == 1 else "%s%d" % (f[0], f[1])
+    ps = []
+    for x in cmb["parts"]:
+        if x[0] == "e": ps.append("...")
+        elif x[0] == "i": ps.append("int:%s%s" % (x[1], "" if x[2] is None else x[2]))
+        else: ps.append("[" + ":".join(pf(f) for f in x[1]) + "]")
+    return "dim %d shape-kind %s array-kind %s: %s" % (cmb["dim"], cmb["skind"], cmb["akind"], " ".join(ps))
+
+
+def _combo_fn(cid, cmb):
+    dim, parts = cmb["dim"], cmb["parts"]
+    lines = ["static std::string combo_%s(const Case& c) {   // %s" % (cid, describe(cmb))]
     names = []
-    nf = dim - sum(1 for x in parts if x != "e")
-    rdim = nf + sum(1 for x in parts if x not in ("i", "e"))
+    nf = dim - sum(1 for x in parts if x[0] != "e")
+    rdim = nf + sum(1 for x in parts if x[0] == "r")
     for k, t in enumerate(parts):
         a = "c.args[%d]" % (3 + k)
-        if t == "i": lines.append("    auto p%d = part_i(%s);" % (k, a))
-        elif t == "e": lines.append("    auto p%d = nm::Ellipsis;" % k)
-        elif t[2] == "O": lines.append("    auto p%d = part_r2<%s,%s>(%s);" % (k, _cxx_t(t[0]), _cxx_t(t[1]), a))
-        else: lines.append("    auto p%d = part_r3<%s,%s,%s>(%s);" % (k, _cxx_t(t[0]), _cxx_t(t[1]), _cxx_t(t[2]), a))
-        names.append("p%d" % k)
-    lines.append("    return run_static<%d,%d>(c, %s);" % (dim, rdim, ", ".join(names)))
+        if t[0] == "e": e = "nm::Ellipsis"
+        elif t[0] == "i":
+            e = {"rt": "part_i(%s)" % a, "rtu": "(size_t)part_i(%s)" % a}.get(t[1]) or _ct_expr(t[1], t[2])
+        else:
+            fs = [_field_expr(f, a, j + 1) for j, f in enumerate(t[1]) if f[0] != "O"]
+            e = "nmtools_tuple{%s}" % ", ".join(fs)
+        lines.append("    auto p%d = %s;" % (k, e)); names.append("p%d" % k)
+    ps = ", ".join(names)
+    shape = cmb["shape"]; total = 1
+    for e in shape: total *= e
+    sk = cmb["skind"]
+    shp = {"vec": "vec_of<size_t>(c.args[2].list)", "arr": "arr_n<%d>(vec_of<size_t>(c.args[2].list))" % dim,
+           "sv": "sv_of<%d>(c.args[2].list)" % (dim + 1),
+           "cst": "nmtools_tuple{%s}" % ", ".join("meta::integral_constant<size_t,%d>{}" % e for e in shape)}[sk]
+    ik = 0 if sk in ("vec", "sv") else 1
+    lines.append("    if (c.op == \"mx\") { auto shp = %s; return run_index<%d,%d>(c, shp, %s); }" % (shp, ik, rdim, ps))
+    ak = cmb["akind"]
+    if ak == "dyn": mk = "auto a = iota_dyn(c.args[2].list);"
+    elif ak == "fs": mk = "auto a = iota_fs<%d>(c.args[2].list);" % dim
+    elif ak == "raw": mk = "ll a%s; iota_raw(a, %d);" % ("".join("[%d]" % e for e in shape), total)
+    else: mk = "nm::array::fixed_ndarray<ll,%s> a; iota_raw(a.data, %d);" % (",".join(map(str, shape)), total)
+    lines.append("    %s" % mk)
+    lines.append("    return run_view(c, a, %s);" % ps)
     lines.append("}")
     return "\n".join(lines)
 
@@ -91,10 +190,10 @@ def write_drivers(tier):
     nt = n_tus(tier)
     for t in range(nt):
         fns = []; table = []
-        for cid, (dim, parts) in enumerate(combos):
+        for cid, cmb in enumerate(combos):
             if cid % nt != t: continue
-            fns.append(_combo_fn("c%d" % cid, dim, parts))
-            table.append('    if (id == "c%d") return combo_c%d(c);   // dim %d: %s' % (cid, cid, dim, " ".join(parts)))
+            fns.append(_combo_fn("c%d" % cid, cmb))
+            table.append('    if (id == "c%d") return combo_c%d(c);' % (cid, cid))
         src = ("// generated by harness/gen_c05.py (tier %s, TU %d of %d) - typed-tuple encodings of the C05 multi-axis combinations\n"
                '#include "c05_mx.hpp"\nusing namespace c05;\n\n' % (tier, t, nt) + "\n\n".join(fns) +
                "\n\nstatic std::string handle(const Case& c) {\n    if (c.op != \"mx\" && c.op != \"vw\") return \"unsupported\";\n"
